@@ -154,6 +154,9 @@ func Main() {
 		if res.SetupErr != "" {
 			summary["setup_error"] = res.SetupErr
 		}
+		if LastInputBlocked {
+			summary["input_blocked"] = true
+		}
 		if len(once) > 0 && len(fs) == 0 {
 			summary["not_reproduced"] = once[0].Signature
 		}
